@@ -33,7 +33,8 @@ using namespace votca::csg;
 // n beads of one type at pos (3n), box row-major 9 values, cutoff; grid != 0: cell-grid search, else simple search.
 // mols[i]: molecule of bead i; excl != 0: beads of the same molecule are mutually excluded and the search honours exclusions.
 // Output per pair k: ids[2k], ids[2k+1]; rs[4k..4k+2] = stored connection vector, rs[4k+3] = stored distance.  Returns #pairs (-1 threw).
-H long h_pairs(long grid, long n, const double* pos, const double* box, double cutoff, const long* mols, long excl, long* ids, double* rs, long cap) {
+// sc[4*(i*n+j)..]: the topology's own shortest connection pos_i -> pos_j and its norm for i<j (what the property calls the minimum-image vector; decided in C02)
+H long h_pairs(long grid, long n, const double* pos, const double* box, double cutoff, const long* mols, long excl, long* ids, double* rs, long cap, double* sc) {
   try {
     Topology top;
     Eigen::Matrix3d m; for (int i = 0; i < 3; i++) for (int j = 0; j < 3; j++) m(i, j) = box[3 * i + j];
@@ -55,6 +56,11 @@ H long h_pairs(long grid, long n, const double* pos, const double* box, double c
     std::unique_ptr<NBList> nb(grid ? (NBList*)new NBListGrid() : new NBList());
     nb->setCutoff(cutoff);
     nb->Generate(bl, excl != 0);
+    for (long i = 0; i < n; i++) for (long j = i + 1; j < n; j++) {
+      Eigen::Vector3d v = top.BCShortestConnection(top.getBead(i)->getPos(), top.getBead(j)->getPos());
+      for (int c = 0; c < 3; c++) sc[4 * (i * n + j) + c] = v[c];
+      sc[4 * (i * n + j) + 3] = v.norm();
+    }
     long k = 0;
     for (BeadPair* p : *nb) {
       if (k < cap) { ids[2 * k] = p->first()->getId(); ids[2 * k + 1] = p->second()->getId(); for (int c = 0; c < 3; c++) rs[4 * k + c] = p->r()[c]; rs[4 * k + 3] = p->dist(); }
@@ -90,8 +96,8 @@ int main(int argc, char** argv) {
     for (int i = 0; i < 9; i++) box[i] = atof(argv[a++]);
     for (long i = 0; i < 3 * n; i++) pos[i] = atof(argv[a++]);
     for (long i = 0; i < n; i++) mols[i] = atol(argv[a++]);
-    long ids[64]; double rs[128];
-    long k = h_pairs(grid, n, pos, box, cutoff, mols, excl, ids, rs, 32);
+    long ids[64]; double rs[128], sc[400];
+    long k = h_pairs(grid, n, pos, box, cutoff, mols, excl, ids, rs, 32, sc);
     printf("RESULT %ld", k);
     for (long i = 0; i < k && i < 32; i++) printf(" %ld %ld %.12g %.12g %.12g %.12g", ids[2 * i], ids[2 * i + 1], rs[4 * i], rs[4 * i + 1], rs[4 * i + 2], rs[4 * i + 3]);
     printf("\n"); return 0;
